@@ -112,16 +112,26 @@ def run_job(job, attrs_csv):
             months_log[-1].append(item)
     attr = {}
     pop0 = {}
+    import pandas as pd
+    opt_csv = pd.read_csv("data/no_food_trade/animal_feed_data/species_options.csv")
+    opt_csv = opt_csv[opt_csv["scenario"] == strat].set_index("animal")
     for a in animals:
         row = attrs_csv.loc[a.animal_type]
+        # target size and baseline slaughter as the requested strategy configures them (species_options.csv), applied to the
+        # herd's own initial head count and initial slaughter - not what the simulated object says about itself
+        orow = opt_csv.loc[a.animal_type]
+        target_cfg = float(orow["target_population_fraction"]) * float(a.initital_population)
+        base_sl_cfg = float(a.initial_slaughter) * float(orow["change_in_slaughter_rate"])
         attr[a.animal_type] = dict(
             milk=a.animal_type.startswith("milk_"),
             group=a.animal_type.replace("milk_", "").replace("meat_", ""),
             size=str(row["animal size"]),
             ruminant=str(row["digestion type"]) == "ruminant",
             hours=num(float(row["animal_slaughter_hours"])),
-            target=num(a.target_population_head),
-            baseSl=num(a.baseline_slaughter),
+            target=num(target_cfg),
+            baseSl=num(base_sl_cfg),
+            targetObj=num(a.target_population_head),
+            baseSlObj=num(a.baseline_slaughter),
             lsu=num(float(row["LSU"])),
             factor=num(a.LSU_factor),
             kcalHead=num(KCAL_HEAD[meat_class(a.animal_type, str(row["animal size"]))]),
